@@ -652,6 +652,20 @@ def _run_labels(case, classes, nt):
             return Outcome(classes, known="alpha-label-over-26")
         return Outcome(classes, nt, fail="[alpha-label-over-26] " + "; ".join(bad_known[:3]) + " ranges=%r" % (case["ranges"],),
                        sample=case.get("sample"))
+    # ---- a selection of pages keeps each page's own label (the label belongs to the page index, not to the position in
+    # the selection)
+    if n >= 2:
+        import io as _io
+
+        sel = sorted({(7 * n + 3) % n, n - 1, (n // 2)} - {0}) or [n - 1]
+        try:
+            got4 = [(p.label) for p in PDFPage.get_pages(_io.BytesIO(case["pdf"]), pagenos=set(sel))]
+        except Exception as e:
+            return Outcome(classes, nt, fail="labels: get_pages(pagenos=%r) raised %s: %s" % (sel, type(e).__name__, e), sample=case.get("sample"))
+        want4 = [got1[i] for i in sel]
+        if got4 != want4:
+            return Outcome(classes, nt, fail="get_pages(pagenos=%r): labels %r, the pages' own labels are %r ranges=%r" % (
+                sel, got4, want4, case["ranges"]), sample=case.get("sample"))
     # ---- the same labels with settings.STRICT on: a conforming tree gives no reason to raise, and the strict accessors
     # must accept every optional entry being absent
     # (not for shuffled Kids: ISO does not order them, pdfminer's strict mode asks for sorted trees)
